@@ -4552,6 +4552,15 @@ _dispatch_workloop_push_waiter(dispatch_workloop_t dwl,
 		qos = DISPATCH_QOS_DEFAULT;
 	}
 
+	// The sync context lives on the waiter's stack. Once it is pushed, the
+	// thread draining the workloop can hand it over to the waiter, which then
+	// returns: unless the waiter itself is pushing (a redirect from a queue
+	// that targets the workloop is not), it cannot be written to anymore.
+	bool pushed_by_waiter = (dsc->dsc_waiter == _dispatch_tid_self());
+	if (!pushed_by_waiter) {
+		dsc->dsc_wlh_was_first = false;
+	}
+
 	prev = _dispatch_workloop_push_update_tail(dwl, qos, dc);
 	_dispatch_workloop_push_update_prev(dwl, qos, prev, dc);
 	if (likely(!os_mpsc_push_was_empty(prev))) return;
@@ -4575,7 +4584,9 @@ _dispatch_workloop_push_waiter(dispatch_workloop_t dwl,
 		}
 	});
 
-	dsc->dsc_wlh_was_first = (dsc->dsc_waiter == _dispatch_tid_self());
+	if (pushed_by_waiter) {
+		dsc->dsc_wlh_was_first = true;
+	}
 
 	if ((old_state ^ new_state) & DISPATCH_QUEUE_IN_BARRIER) {
 		return _dispatch_workloop_barrier_complete(dwl, qos, 0);
